@@ -201,6 +201,33 @@ spec("user_only",
      sens={(1, 0): 3, (1, 1): 4}, step_limit=4)
 
 
+# --- a ring of six subnets behind one gateway: every subnet can be approached from two sides, and compromising the
+#     far side makes subnets CLOSER to the internet reachable (4 -> 5, 3 -> ... going round)
+spec("ring",
+     subnets=[1, 1, 1, 1, 1, 1], topology=topo(7, [(0, 1), (1, 2), (2, 3), (3, 4), (4, 5), (5, 6), (6, 1)]),
+     os=["linux"], services=["ssh"], processes=["p"],
+     hosts=dict(((s, 0), H("linux", ["ssh"], [])) for s in range(1, 7)),
+     exploits={"e_ssh": E("ssh", None, 1.0, 1, R)},
+     privescs={"pe_p": P("p", None, 1.0, 1, R)},
+     fw=dict([((0, 1), ["ssh"]), ((1, 0), [])]
+             + [((a, b), ["ssh"]) for a, b in [(1, 2), (2, 3), (3, 4), (4, 5), (5, 6), (6, 1)]]
+             + [((b, a), ["ssh"]) for a, b in [(1, 2), (2, 3), (3, 4), (4, 5), (5, 6), (6, 1)]]),
+     sens={(4, 0): 10, (6, 0): 2.1, (2, 0): 0.1})
+
+# --- 68 hosts (tensor rows beyond 64, more than 1000 cells), two gateways at opposite ends of the row order;
+#     recorded goal-seeking sweeps only
+spec("big68",
+     subnets=[33, 33, 2], topology=topo(4, [(0, 1), (0, 3), (1, 2), (2, 3)]),
+     os=["linux"], services=["ssh"], processes=["tomcat"],
+     hosts=dict([((1, i), H("linux", ["ssh"], ["tomcat"] if i % 4 == 0 else [])) for i in range(33)]
+                + [((2, i), H("linux", ["ssh"], ["tomcat"] if i % 4 == 1 else [])) for i in range(33)]
+                + [((3, i), H("linux", ["ssh"], ["tomcat"])) for i in range(2)]),
+     exploits={"e_ssh": E("ssh", "linux", 0.9, 1, U)},
+     privescs={"pe_tomcat": P("tomcat", None, 1.0, 1, R)},
+     fw={(0, 1): ["ssh"], (1, 0): [], (0, 3): ["ssh"], (3, 0): [], (1, 2): ["ssh"], (2, 1): ["ssh"],
+         (2, 3): ["ssh"], (3, 2): ["ssh"]},
+     sens={(2, 17): 10, (3, 1): 5, (1, 32): 3}, big=True)
+
 # --- a wide subnet (two-digit host ids) with deny-lists naming two-digit sources; too large for exhaustive
 #     exploration, used for recorded runs and as a format document
 spec("wide",
@@ -394,6 +421,50 @@ def decoys_of(cs):
                   bounds=tuple(cs["bounds"]), extra=[])
         out.append(sp)
     return out
+
+
+def run_numbers_decoy(scn, steps=40):
+    """Decoy D: the scenario under test itself - same name, same names, layout, hosts and wiring - with other NUMBERS
+    (scan costs, exploit / escalation costs, probabilities and access levels, host and sensitive values, step limit;
+    every firewall rule opened), built and stepped in both action modes before any environment of the scenario under
+    test exists.  A process-global cache keyed by name / layout / definitions' names that ignores the numbers then
+    shows up in the scenario under test."""
+    import copy
+    import random
+    from nasim.envs import NASimEnv
+    from nasim.scenarios import Scenario
+    try:
+        d = copy.deepcopy(scn.scenario_dict)
+        for k in ("service_scan_cost", "os_scan_cost", "subnet_scan_cost", "process_scan_cost"):
+            if k in d:
+                d[k] = float(d[k]) * 3 + 0.5
+        for sect in ("exploits", "privilege_escalation"):
+            for e in d.get(sect, {}).values():
+                e["cost"] = float(e["cost"]) * 2 + 1
+                e["prob"] = 0.25 if float(e["prob"]) > 0.5 else 0.75
+                e["access"] = 3 - int(e["access"])
+        d["sensitive_hosts"] = {a: float(v) * 2 + 3 for a, v in d["sensitive_hosts"].items()}
+        for a, h in d["host"].items():
+            h.value = d["sensitive_hosts"].get(a, float(h.value) + 1)
+            h.discovery_value = float(h.discovery_value) + 2
+            h.firewall = {}
+        d["firewall"] = {pair: list(d["services"]) for pair in d["firewall"]}
+        d["step_limit"] = 7
+        decoy = Scenario(d, name=scn.name, generated=getattr(scn, "generated", False))
+        rng = random.Random(11)
+        for fa in (True, False):
+            env = NASimEnv(decoy, fully_obs=not fa, flat_actions=fa, flat_obs=fa)
+            env.reset()
+            for _ in range(steps):
+                env.step(env.action_space.sample() if not fa else rng.randrange(env.action_space.n))
+            if fa:
+                env.get_action_mask()
+            env.get_score_upper_bound()
+            env.get_minimum_hops()
+            del env
+    except Exception:      # a decoy is only there to leave process-global traces behind
+        if os.environ.get("VERIF_DEBUG_DECOY"):
+            raise
 
 
 def run_decoys(cs, steps=8):
